@@ -662,6 +662,7 @@ func (x *Exec) resetPath() {
 	x.fileData = map[string]fileStub{}
 	x.hb = nil
 	x.syncs = nil
+	x.procs = 0
 	x.raceMsgs = nil
 	x.wtrack = nil
 	x.wtrackM = nil
